@@ -337,6 +337,10 @@ func digitSweepCase(t *mon.T, d int64) {
 		{Form: dec.Finite, Neg: x.Neg, C: new(big.Int).Add(new(big.Int).Mul(x.C, bTen), bOne), E: -1},       // slightly larger magnitude
 		{Form: dec.Finite, Neg: x.Neg, C: big.NewInt(1), E: d},                                                // 10^d: larger magnitude
 		{Form: dec.Finite, Neg: x.Neg, C: new(big.Int).Sub(new(big.Int).Mul(x.C, dec.Pow10(3)), bOne), E: -3}, // slightly smaller magnitude
+		// short coefficients with the same adjusted exponent: the whole length
+		// difference lies in the exponents (a gap of d-1 and d-2 places)
+		{Form: dec.Finite, Neg: x.Neg, C: big.NewInt(t.Rng.Range(1, 9)), E: d - 1},
+		{Form: dec.Finite, Neg: x.Neg, C: big.NewInt(t.Rng.Range(10, 99)), E: d - 2},
 	}
 	ax := br.ToApd(x)
 	for _, y := range ys {
